@@ -58,4 +58,6 @@ def main : IO Unit := do
     loop h out ({} : Repr.World Unit) Repr.driverStep {}
   | some (.list [.atom "model", .atom "conv"]) =>
     loop h out ({} : Conv.DState) Conv.driverStep {}
+  | some (.list [.atom "model", .atom "setters"]) =>
+    loop h out () Setters.driverStep ()
   | _ => out.putStrLn "unknown-model"
